@@ -98,5 +98,31 @@ func RunProfile(profile, tier string, seed int64, out string, shards int, script
 		}
 		return s.finish(profile, types)
 	}
+	if f, ok := profileFns[profile]; ok {
+		s, err := newShards(out, profile, shards)
+		if err != nil {
+			return nil, err
+		}
+		types, extra := f(s, rng, thorough)
+		st, err := s.finish(profile, types)
+		if st != nil {
+			for k, v := range extra {
+				st.Extra[k] = v
+			}
+		}
+		return st, err
+	}
 	return nil, fmt.Errorf("unknown profile %q", profile)
+}
+
+// profileFns: directed and exhaustive drivers; each returns the element types it covered.
+var profileFns = map[string]func(s *shardSet, rng *rand.Rand, thorough bool) ([]string, map[string]int){
+	"exh": func(s *shardSet, rng *rand.Rand, thorough bool) ([]string, map[string]int) {
+		depth, deeper := 2, 0
+		if thorough {
+			deeper = 3
+		}
+		n := Exhaustive(s, rng, depth, 4, deeper)
+		return []string{"int16", "int8", "int64", "float64", "uint8", "uint32"}, map[string]int{"paths": n, "depth": depth}
+	},
 }
